@@ -1265,3 +1265,67 @@ pub fn path_validation_timeout_native(rounds: u8) -> u32 {
     }
     rounds as u32
 }
+
+/// Native replay body for the E2 slice query `e2_zero_rtt_rejection_slice` (C17 / C12): a real client
+/// connection that attempted 0-RTT (one early stream written, one early packet of 100 bytes in flight, a
+/// queued early MAX_DATA frame) completes its handshake with a TLS session that reports the early data as
+/// rejected (`accept = false`) or accepted.  Rejected: the early packet is forgotten and no longer counts
+/// as in flight, the queued frame is gone, the early stream is closed and the connection says 0-RTT was not
+/// accepted.  Accepted: all of that stays.
+pub fn zero_rtt_rejection_native(accept: bool) -> u32 {
+    use crate::crypto::{HeaderKey, KeyPair, PacketKey};
+    struct Done(bool);
+    impl crate::crypto::Session for Done {
+        fn initial_keys(&self, _: ConnectionId, _: Side) -> crate::crypto::Keys { nullcrypto::keys() }
+        fn handshake_data(&self) -> Option<Box<dyn std::any::Any>> { None }
+        fn peer_identity(&self) -> Option<Box<dyn std::any::Any>> { None }
+        fn early_crypto(&self) -> Option<(Box<dyn HeaderKey>, Box<dyn PacketKey>)> {
+            Some((Box::new(nullcrypto::NullHeaderKey), Box::new(nullcrypto::NullPacketKey)))
+        }
+        fn early_data_accepted(&self) -> Option<bool> { Some(self.0) }
+        fn is_handshaking(&self) -> bool { false }
+        fn read_handshake(&mut self, _: &[u8]) -> Result<bool, TransportError> { Ok(false) }
+        fn transport_parameters(&self) -> Result<Option<TransportParameters>, TransportError> {
+            let mut p = TransportParameters::default();
+            p.initial_max_data = VarInt::from_u32(5555);
+            p.initial_max_streams_uni = VarInt::from_u32(4);
+            p.initial_max_stream_data_uni = VarInt::from_u32(1000);
+            p.initial_src_cid = Some(ConnectionId::new(&[3; 8]));
+            p.original_dst_cid = Some(ConnectionId::new(&[1; 8]));
+            Ok(Some(p))
+        }
+        fn write_handshake(&mut self, _: &mut Vec<u8>) -> Option<crate::crypto::Keys> { None }
+        fn next_1rtt_keys(&mut self) -> Option<KeyPair<Box<dyn PacketKey>>> { None }
+        fn is_valid_retry(&self, _: ConnectionId, _: &[u8], _: &[u8]) -> bool { false }
+        fn export_keying_material(&self, _: &mut [u8], _: &[u8], _: &[u8]) -> Result<(), crate::crypto::ExportKeyingMaterialError> { Err(crate::crypto::ExportKeyingMaterialError) }
+    }
+    let mut conn = mk_conn(false, false);
+    conn.crypto = Box::new(Done(accept));
+    conn.init_0rtt();
+    assert!(conn.has_0rtt());
+    let t0 = crate::verif::mk_instant(50, 0).unwrap();
+    let now = crate::verif::mk_instant(51, 0).unwrap();
+    let s = conn.streams().open(Dir::Uni).expect("remembered stream credit");
+    assert!(conn.send_stream(s).write(b"early").is_ok());
+    let early = SentPacket { path_generation: 0, time_sent: t0, size: 100, ack_eliciting: true, largest_acked: None, retransmits: ThinRetransmits::default(), stream_frames: Default::default() };
+    paths::in_flight_insert(&mut conn.path, &early);
+    conn.spaces[SpaceId::Data].sent(0, early);
+    conn.spaces[SpaceId::Data].pending.max_data = true;
+    conn.spaces[SpaceId::Handshake].crypto = Some(nullcrypto::tagged_keys(0));
+    // the server's Handshake packet (number 0, one PING) that completes the handshake
+    let hs = vec![0xe0u8, 0, 0, 0, 1, 8, 2, 2, 2, 2, 2, 2, 2, 2, 8, 3, 3, 3, 3, 3, 3, 3, 3, 5, 0, 0x01, 0, 0, 0];
+    let (first_decode, remaining) = PartialDecode::new(BytesMut::from(&hs[..]), &FixedLengthConnectionIdParser::new(8), &[1], true).ok().expect("decodes");
+    conn.handle_event(ConnectionEvent(ConnectionEventInner::Datagram(DatagramConnectionEvent { now, remote: addr(1, 4433), ecn: None, first_decode, remaining })));
+    assert!(conn.accepted_0rtt == accept, "accepted_0rtt does not tell what the TLS session decided");
+    if accept {
+        assert!(conn.spaces[SpaceId::Data].sent_packets.get(0).is_some() && paths::in_flight_bytes(&conn.path) == 100, "accepted early packets must stay outstanding");
+        assert!(conn.send_stream(s).write(b"more").is_ok(), "an accepted early stream stays open");
+        2
+    } else {
+        assert!(conn.spaces[SpaceId::Data].sent_packets.get(0).is_none(), "a rejected early packet is still waiting for an acknowledgement");
+        assert!(paths::in_flight_bytes(&conn.path) == 0, "{} bytes of rejected early data still count as in flight", paths::in_flight_bytes(&conn.path));
+        assert!(!conn.spaces[SpaceId::Data].pending.max_data, "a frame queued with the rejected early data survived");
+        assert!(conn.send_stream(s).write(b"more").is_err(), "an early stream of a rejected 0-RTT attempt must report the rejection");
+        1
+    }
+}
